@@ -41,6 +41,24 @@ def generate(rng, tier):
         files += f2; truth["t/zz_panic.slt"] = "fail"; info["t/zz_panic.slt"] = {"kind": "panic"}
         cases.append({"files": files, "rules": rules, "truth": truth, "info": info, "jobs": rng.randint(1, 4) if parallel else None,
                       "junit": False, "fail_fast": False, "meta": {}})
+    # exactly ONE failing file of each kind among passing files, in every mode: a failure kind whose only effect on the exit status
+    # goes through a path of its own must not be masked by some other failure in the same run
+    for kind in ["fail", "parse", "dies", "nostart"]:
+        for jobs in ([None, 2] if tier == "quick" else [None, 1, 2, 3, 4, 8]):
+            if kind == "nostart" and jobs is None:
+                continue
+            for rep in range(1 if tier == "quick" else 4):
+                files, rules, truth, info = clifam.make_set(rng, rng.randint(1, 4), kinds=["pass"], parallel=bool(jobs))
+                f2, r2, t2, i2 = clifam.make_set(rng, 1, kinds=[kind], parallel=bool(jobs), start=50)
+                old = f2[0][0]
+                new = "t/zz_only_%s.slt" % kind
+                f2[0][0] = new
+                for r in r2:
+                    if "start_db_prefix" in r:
+                        r["start_db_prefix"] = clifam.case_name(new) + "_"
+                files += f2; rules += r2; truth[new] = t2[old]; info[new] = i2[old]
+                cases.append({"files": files, "rules": rules, "truth": truth, "info": info, "jobs": jobs,
+                              "junit": rng.random() < 0.5, "fail_fast": False, "meta": {"single": kind}})
     return cases
 
 
